@@ -55,8 +55,13 @@ static std::string handle(const std::string & kind, const std::string & path)
         bxdecay0::event ev;
         rd.load_next_event(ev);
         if (!ev.is_valid()) return "{\"verdict\":\"garbage\",\"detail\":\"a delivered event fails event::is_valid()\"}";
-        for (auto & p : ev.get_particles())
+        for (auto & p : ev.get_particles()) {
           if (!std::isfinite(p.get_px()) || !std::isfinite(p.get_time())) { /* inf/nan tokens parse as numbers: is_valid decides */ }
+          // a species outside the particle-code enumeration (no name, no mass) is garbage whatever is_valid() says
+          int cd = (int)p.get_code();
+          if (!(cd == 1 || cd == 2 || cd == 3 || cd == 13 || cd == 14 || cd == 47))
+            return "{\"verdict\":\"garbage\",\"detail\":\"a delivered event holds a particle of code " + std::to_string(cd) + ", outside the particle-code enumeration\"}";
+        }
         if (++n > 64) return "{\"verdict\":\"unbounded\",\"detail\":\"more than 64 events delivered from a two-event file\"}";
       }
       detail = std::to_string(n) + " events";
@@ -78,6 +83,11 @@ static std::string handle(const std::string & kind, const std::string & path)
             bxdecay0::event ev;
             rd2.load_next_event(ev);
             if (!ev.is_valid()) return "{\"verdict\":\"garbage\",\"detail\":\"a delivered event (window starting at " + std::to_string(start) + ") fails event::is_valid()\"}";
+            for (auto & p : ev.get_particles()) {
+              int cd = (int)p.get_code();
+              if (!(cd == 1 || cd == 2 || cd == 3 || cd == 13 || cd == 14 || cd == 47))
+                return "{\"verdict\":\"garbage\",\"detail\":\"a delivered event (window starting at " + std::to_string(start) + ") holds a particle of code " + std::to_string(cd) + "\"}";
+            }
             if (++m > 1) return "{\"verdict\":\"unbounded\",\"detail\":\"more events delivered than the window allows\"}";
           }
         } catch (std::exception &) {
